@@ -472,6 +472,14 @@ func (kc *kernelCtx) runFunc0(b *Block) *Unit {
 		for i, p := range fn.Params {
 			env.Vars[p.Name()] = args[i]
 		}
+		if len(b.all("requires")) > 0 {
+			// captured variables a precondition may mention: their pre-state symbols
+			for _, fv := range fn.FreeVars {
+				if pt, ok := fv.Type().Underlying().(*types.Pointer); ok {
+					x.load(st, fv.Name(), pt.Elem(), token.NoPos)
+				}
+			}
+		}
 		for _, c := range b.all("requires") {
 			g, err := env.evalBool(c.Text)
 			if err != nil {
